@@ -209,6 +209,8 @@ def gen_spec(rng: random.Random, circular=None, length=None, max_genes: int = 14
                                  "quals": rng.choice([{"note": ["external motif"]},
                                                       {"note": ["external motif"], "label": ["ext_label"]}])})
     _gen_annotations(rng, spec, rich)
+    structures = [["NC(C)C(=O)NC(CO)C(=O)O", "(ala) + (ser)"], ["CC(=O)CC(O)CC(=O)O", "(mal - ohmal)"], ["C1CC1", None]]
+    spec["candidate_structures"] = [rng.choice(structures) if rich and rng.random() < 0.4 else None for _ in range(12)]
     return spec
 
 
@@ -224,6 +226,16 @@ def _gen_annotations(rng, spec, rich):
     protos = []
     k = rng.choice([0, 1, 2, 2, 3, 3, 4, 5]) if n >= 2 else rng.choice([0, 1])
     nb_choices = [0, 100, 300, 1000, 2500, 20000]
+    split_layout = spec["circular"] and n >= 5 and rng.random() < 0.2
+    if split_layout:
+        # an origin-crossing region holding the lowest and the highest area numbers of the record, and another
+        # region in between: a core over the origin, one just before the origin, one in the middle of the record
+        k = 0
+        for core, nb in (([n - 1, 0], 0), ([n - 2, n - 2], rng.choice([600, 1000, 2500])), ([n // 2, n // 2], 0)):
+            product = PRODUCTS[len(protos) % len(PRODUCTS)]
+            protos.append({"core_genes": core, "product": product, "category": CATEGORIES[product], "nb": nb,
+                           "cutoff": 0, "rule": "(a and b)", "tool": "rule-based-clusters", "sideloaded": False,
+                           "notes": [], "core_marks": "ends", "t2pks": None, "extra": {}})
     for _ in range(k):
         derived = protos and rng.random() < 0.65
         if derived:
@@ -276,7 +288,7 @@ def _gen_annotations(rng, spec, rich):
     spec["protoclusters"] = protos
     # ---- subregions
     subs = []
-    for _ in range(rng.choice([0, 0, 1, 1, 2]) if rich else 0):
+    for _ in range(rng.choice([0, 0, 1, 1, 2]) if rich and not split_layout else 0):
         sub = {"tool": rng.choice(["cassis", "clusterfinder"]), "label": rng.choice(["", "VF_0001", "anchor"]),
                "sideloaded": rng.random() < 0.4, "extra": {}}
         if rng.random() < 0.6 and n:
@@ -648,6 +660,11 @@ def build_from_spec(spec: dict) -> Record:
             feature = SubRegion(loc, sub["tool"], label=sub["label"])
         record.add_subregion(feature)
     record.create_candidate_clusters()
+    # structure predictions (as the nrps_pks module attaches them): some candidates have them, others do not, and
+    # one without follows one with
+    for candidate, structure in zip(record.get_candidate_clusters(), spec.get("candidate_structures", [])):
+        if structure:
+            candidate.smiles_structure, candidate.polymer = structure
     record.create_regions()
     return record
 
@@ -666,6 +683,31 @@ def build(rng: random.Random, **kwargs) -> Record:
     global LAST_SPEC
     LAST_SPEC = gen_spec(rng, **kwargs)
     return build_from_spec(LAST_SPEC)
+
+
+def _structure_then_none(record) -> bool:
+    seen = False
+    for cand in record.get_candidate_clusters():
+        if cand.smiles_structure:
+            seen = True
+        elif seen:
+            return True
+    return False
+
+
+def _split_numbering(record) -> bool:
+    """ an origin-crossing region whose candidates (or subregions) hold the lowest and the highest numbers of the
+        record while another region owns numbers in between """
+    if len(record.get_regions()) < 2:
+        return False
+    for region in record.get_regions():
+        if not region.crosses_origin():
+            continue
+        for numbers in (sorted(c.get_candidate_cluster_number() for c in region.candidate_clusters),
+                        sorted(sub.get_subregion_number() for sub in region.subregions)):
+            if numbers and numbers != list(range(numbers[0], numbers[-1] + 1)):
+                return True
+    return False
 
 
 def facts(record) -> dict:
@@ -688,6 +730,9 @@ def facts(record) -> dict:
         "subregions": len(record.get_subregions()),
         "sideloaded_subregions": sum(1 for s in record.get_subregions() if isinstance(s, SideloadedSubRegion)),
         "regions": len(record.get_regions()),
+        "candidates_with_structure": sum(1 for c in record.get_candidate_clusters() if c.smiles_structure),
+        "candidate_without_structure_after_one_with": _structure_then_none(record),
+        "origin_region_with_split_numbering": _split_numbering(record),
         "max_candidates_per_region": max([len(r.candidate_clusters) for r in record.get_regions()] or [0]),
         "bridging_areas": sum(1 for f in list(protos) + list(record.get_candidate_clusters())
                               + list(record.get_subregions()) + list(record.get_regions()) if f.crosses_origin()),
